@@ -7,11 +7,13 @@ import (
 	"encoding/binary"
 	"fmt"
 	"math/rand"
+	"reflect"
 	"runtime"
 	"sync"
 	"sync/atomic"
 	"testing"
 	"time"
+	"unsafe"
 
 	"github.com/keep-network/keep-core/internal/verifkit"
 	"github.com/keep-network/keep-core/pkg/net"
@@ -221,12 +223,33 @@ func c16NewWorld(n int, keys []*operator.PublicKey) *c16World {
 	return w
 }
 
-func (w *c16World) close() {
+// close stops the tickers. sends[i] is the number of Send calls made on
+// channel i: each one registers with the ticker from its own goroutine, and
+// the ticker clears its handler map without its mutex once the tick channel
+// is closed, so the channel is closed only after every registration is in
+// (otherwise left open: one parked goroutine).
+func (w *c16World) close(sends []int) {
 	broadcastChannelsMutex.Lock()
 	delete(broadcastChannels, w.name)
 	broadcastChannelsMutex.Unlock()
-	for _, t := range w.ticks {
-		close(t)
+	c16CloseTickers(w.channels, w.ticks, sends)
+}
+
+func c16CloseTickers(channels []*localChannel, ticks []chan uint64, sends []int) {
+	for i, t := range ticks {
+		tk := channels[i].retransmissionTicker
+		deadline := time.Now().Add(5 * time.Second)
+		for {
+			n := c16TickerRegistrations(tk)
+			if n >= uint64(sends[i]) {
+				close(t)
+				break
+			}
+			if time.Now().After(deadline) {
+				break
+			}
+			time.Sleep(50 * time.Microsecond)
+		}
 	}
 }
 
@@ -254,6 +277,16 @@ func (w *c16World) queued() int {
 	return n
 }
 
+// c16TickerRegistrations reads the Ticker's registration counter under the
+// Ticker's own mutex (the fields are unexported in package retransmission).
+func c16TickerRegistrations(tk *retransmission.Ticker) uint64 {
+	v := reflect.ValueOf(tk).Elem()
+	mu := (*sync.Mutex)(unsafe.Pointer(v.FieldByName("handlersMutex").UnsafeAddr()))
+	mu.Lock()
+	defer mu.Unlock()
+	return v.FieldByName("nextHandlerId").Uint()
+}
+
 type c16Outcome struct {
 	retransOfDelivered int
 	postCancelSends    int
@@ -273,7 +306,11 @@ func c16Strategy(s string) net.RetransmissionStrategy {
 // calls and cancel returns (oracle pass only; never under -race).
 func c16RunScript(r *verifkit.Run, sc c16Script, desc string, keys []*operator.PublicKey, stamps bool) (out c16Outcome) {
 	w := c16NewWorld(sc.Channels, keys)
-	defer w.close()
+	sends := make([]int, sc.Channels)
+	for _, m := range sc.Msgs {
+		sends[sc.SenderCh[m.Sender]]++
+	}
+	defer w.close(sends)
 	const watchdog = 30 * time.Second
 
 	handlers := make([]*c16Handler, len(sc.Handlers))
@@ -393,7 +430,7 @@ func c16RunScript(r *verifkit.Run, sc c16Script, desc string, keys []*operator.P
 		last, lastTap := -1, -1
 		stable := 0
 		deadline := time.Now().Add(500 * time.Millisecond)
-		for stable < 20 && time.Now().Before(deadline) {
+		for stable < 10 && time.Now().Before(deadline) {
 			q, tp := w.queued(), len(w.tap)
 			if q == 0 && q == last && tp == lastTap {
 				stable++
@@ -498,6 +535,11 @@ drain:
 		recs := append([]c16Rec(nil), hd.recs...)
 		hd.mu.Unlock()
 		out.deliveries += len(recs)
+		if sc.Handlers[h].Pre && sc.Handlers[h].PreCancelled && len(recs) > 0 {
+			// cancelled before any sender goroutine existed: every Send began after the cancellation
+			r.Violation("local:delivered-after-cancel", "a handler registered with a context cancelled before the traffic started received a message", desc,
+				map[string]interface{}{"handler": h, "deliveries": len(recs)})
+		}
 		seenPair := map[pair]bool{}
 		seenID := map[uint64]bool{}
 		for _, rc := range recs {
@@ -536,13 +578,16 @@ drain:
 
 func c16LocalWorkload(r *verifkit.Run, repeats int, stamps bool) {
 	r.SetRule("scenario = 1-3 local channels on one name with hand-fed retransmission tickers, 2-6 sender goroutines (2-6 Sends each, standard or backoff strategy, some send contexts cancelled early), 1-5 handlers registered before or during the traffic (some with an already cancelled context), cancelled by a sender goroutine at a PRNG position which then immediately sends 1-3 more messages, ticks injected by the senders and after the traffic; oracle: per handler each (sender, seqno) and each Send at most once, one seqno per Send and per-channel seqnos distinct (raw tap), nothing sent after cancel() returned reaches that handler. non-trivial = a retransmission of an already delivered message was observed, or a handler was cancelled while traffic continued")
-	n := r.N(200, 10000)
+	n := r.N(150, 6000)
+	if !stamps {
+		n = r.N(150, 1500)
+	}
 	_, k1, _ := operator.GenerateKeyPair(DefaultCurve)
 	_, k2, _ := operator.GenerateKeyPair(DefaultCurve)
 	_, k3, _ := operator.GenerateKeyPair(DefaultCurve)
 	keys := []*operator.PublicKey{k1, k2, k3}
 	var retrans, post, deliveries, broadcasts int64
-	verifkit.Parallel(n, 4, func(i int) {
+	verifkit.Parallel(n, 8, func(i int) {
 		sc := c16GenScript(r.SubRand("local", i))
 		desc := verifkit.JSON(sc)
 		for rep := 0; rep < repeats; rep++ {
@@ -577,5 +622,5 @@ func TestVerif_C16_LocalRace(t *testing.T) {
 	r := verifkit.Start(t, "C16", "local-race")
 	defer r.Finish()
 	r.Assume("race pass: no stamps; handler callbacks append to their own slice under their own mutex (receive goroutine and final reader only); Send calls and cancel results go to per-message / per-handler slots read after the goroutines ended")
-	c16LocalWorkload(r, r.N(2, 10), false)
+	c16LocalWorkload(r, r.N(1, 2), false)
 }
